@@ -202,6 +202,14 @@ FILTERS = [
     ('isinstance(${%%n_subsets}, int) and divmod(${%%length}, 2)[1] == 0', lambda h, a: h['length'] % 2 == 0),
     ('${%%data_category} in set([%(cat)d, 250])', lambda h, a: h['data_category'] in (a['cat'], 250)),
     ('any(x == ${%%edition} for x in (2, 4))', lambda h, a: h['edition'] in (2, 4)),
+    # ... and so are nested scopes: the looked-up value inside a lambda, a comprehension, a conditional
+    ('(lambda c: c == ${%%data_category})(%(cat)d)', lambda h, a: h['data_category'] == a['cat']),
+    ('[c for c in (1,) if ${%%n_subsets} > %(ns)d] != []', lambda h, a: h['n_subsets'] > a['ns']),
+    ('{k: ${%%edition} for k in (1,)}[1] == %(ed)d', lambda h, a: h['edition'] == a['ed']),
+    ('max(x + ${%%length} for x in [0]) < %(len)d', lambda h, a: h['length'] < a['len']),
+    ('(${%%n_subsets} if ${%%is_compressed} else -1) > %(ns)d', lambda h, a: (h['n_subsets'] if h['is_compressed'] else -1) > a['ns']),
+    ('list(filter(lambda v: v == ${%%master_table_version}, [%(ver)d])) == [%(ver)d]',
+     lambda h, a: h['master_table_version'] == a['ver']),
 ]
 
 
@@ -587,7 +595,7 @@ def gen_md_exprs(rng):
         if r < 0.45:
             out.append('%' + name)
         elif r < 0.85:
-            out.append('%%%d.%s' % (rng.choice([0, 1, 2, 3, 4, 5, 6, 9, 77]), name))
+            out.append('%%%d.%s' % (rng.choice([0, 1, 2, 3, 4, 5, 6, 9, 10, 77, 255, 1000]), name))
         elif r < 0.90:
             out.append(' %' + name + ' ')
         else:
